@@ -11,6 +11,7 @@ import (
 	"github.com/hashicorp/hcl-lang/lang"
 	"github.com/hashicorp/hcl-lang/reference"
 	"github.com/hashicorp/hcl/v2"
+	"github.com/hashicorp/hcl/v2/hclsyntax"
 
 	"verifharness/internal/core"
 	"verifharness/internal/dump"
@@ -744,9 +745,9 @@ func (c18) Meta() Meta {
 
 func c18Params(tier string) (nGenQ, nGenT, cursors, inserts int) {
 	if tier == "thorough" {
-		return 30, 300, 80, 12
+		return 40, 400, 120, 40
 	}
-	return 30, 300, 30, 4
+	return 40, 400, 40, 15
 }
 
 func (p c18) NumUnits(tier string, seed int64) int {
@@ -812,9 +813,13 @@ func (p c18) RunUnit(idx int, tier string, seed int64, focus map[string]string, 
 		if len(pts) == 0 {
 			continue
 		}
+		// insertion points and line counts are covered round-robin (every point gets
+		// every line count before any repeats), the line contents are seeded
+		rnd.Shuffle(len(pts), func(a, b int) { pts[a], pts[b] = pts[b], pts[a] })
+		ks := []int{1, 12, 2, 30, 5}
 		for i := 0; i < inserts; i++ {
-			at := pts[rnd.Intn(len(pts))]
-			k := []int{1, 2, 5}[rnd.Intn(3)]
+			at := pts[(i/len(ks))%len(pts)]
+			k := ks[i%len(ks)]
 			var sb strings.Builder
 			nl := "\n"
 			if strings.Contains(src, "\r\n") {
@@ -850,8 +855,20 @@ func (p c18) compare(rc Recipe, st State, at int, ins string, cursors int, rnd *
 	if tab0 == nil || tab1 == nil {
 		return
 	}
+	// the root body's own start position is defined by the parser (it lies behind a
+	// leading inline comment): it is mapped to the original root body's start
+	var rootStart0, rootStart1 hcl.Pos
+	if b0, ok := env0.PathCtx[st.Path].Files[st.File].Body.(*hclsyntax.Body); ok {
+		rootStart0 = b0.Range().Start
+	}
+	if b1, ok := env1.PathCtx[st.Path].Files[st.File].Body.(*hclsyntax.Body); ok {
+		rootStart1 = b1.Range().Start
+	}
 	inserted := false
 	mapPos := func(pp hcl.Pos) hcl.Pos {
+		if pp == rootStart1 {
+			return rootStart0
+		}
 		switch {
 		case pp.Byte < at:
 			return pp
